@@ -43,6 +43,11 @@ var alphabet = []string{
 	"config:show_all:unsigned",
 }
 
+// lists one rule longer than the tier's bound are enumerated over this sub-alphabet (indices into alphabet)
+var subAlphabet = []int{0, 3, 7, 10}
+
+const subLen = 3
+
 const simTicks = 12
 
 type simMode struct {
@@ -149,8 +154,14 @@ type simClass struct {
 	mode    simMode
 	rep     simCase          // the case executed by the process (most suspended member)
 	repSusp int              //
-	members map[string][]int // distinct ACTIVE lists (joined indices) predicted to behave like rep
+	members map[string]member // distinct ACTIVE lists (joined indices) compiled to the same form as rep
 	cases   int
+}
+
+type member struct {
+	active []int
+	c      simCase // a concrete (list, mask) of the class with this active list (fewest suspended rules)
+	nsusp  int
 }
 
 type semResult struct {
@@ -412,7 +423,7 @@ func isSubsequence(a, b []int) bool {
 func judge(run *vlib.Run, loop string, mi *machineInfo, ts *traceStore, c simCase, got outcome, minimal func() bool) bool {
 	exp, err := expectedOutcomes(mi, ts, c, hyp{})
 	if err != nil {
-		run.Report("C15|harness|reference-failed", fmt.Sprintf("%s: %v", c, err), simReplay{loop, c})
+		infra(fmt.Sprintf("reference for %s: %v", c, err))
 		return false
 	}
 	if matches(exp, got) {
@@ -461,7 +472,7 @@ func runSemantics(run *vlib.Run, scratch string, binCh <-chan string, binErr *er
 			var err error
 			mi, err = newMachineInfo(md.Machine)
 			if err != nil {
-				run.Report("C15|harness|machine-build", err.Error(), nil)
+				infra("machine build: " + err.Error())
 				return res
 			}
 			infos[md.Machine] = mi
@@ -471,6 +482,19 @@ func runSemantics(run *vlib.Run, scratch string, binCh <-chan string, binErr *er
 	}
 	var lists [][]int
 	forAllLists(len(alphabet), maxLen, func(idx []int) { lists = append(lists, append([]int{}, idx...)) })
+	if maxLen < subLen {
+		// one more rule per list over a small sub-alphabet (set absolute / set periodic on the same input and two observers)
+		forAllLists(len(subAlphabet), subLen, func(idx []int) {
+			if len(idx) <= maxLen {
+				return
+			}
+			var l []int
+			for _, i := range idx {
+				l = append(l, subAlphabet[i])
+			}
+			lists = append(lists, l)
+		})
+	}
 	var compileChecks int64
 	for _, mi := range infos {
 		// compile every (list, mask) of this machine; classes are shared by the modes of the machine
@@ -484,7 +508,7 @@ func runSemantics(run *vlib.Run, scratch string, binCh <-chan string, binErr *er
 			aparts  [4]string
 			hasSusp bool
 			relD    [2]string // real, model
-			relR    [2]string
+			relR    [3]string // real, model without / with onrecv
 		}
 		jobs := make(chan []int, 256)
 		results := make(chan []item, 256)
@@ -533,6 +557,7 @@ func runSemantics(run *vlib.Run, scratch string, binCh <-chan string, binErr *er
 						}
 						it.relD[0], it.relR[0] = cp.relations(sb)
 						it.relD[1], it.relR[1] = modelRelations(am)
+						_, it.relR[2] = modelRelationsR(am, true)
 						out = append(out, it)
 					}
 					results <- out
@@ -555,7 +580,7 @@ func runSemantics(run *vlib.Run, scratch string, binCh <-chan string, binErr *er
 					run.Report("C15|compile|simdrive|relation-differs", fmt.Sprintf("%s: SimDrive.Init compiled {%s}, the rules say {%s}", it.c,
 						strings.ReplaceAll(it.relD[0], "\n", "; "), strings.ReplaceAll(it.relD[1], "\n", "; ")), simReplay{"compile", it.c})
 				}
-				if it.relR[0] != it.relR[1] {
+				if it.relR[0] != it.relR[1] && it.relR[0] != it.relR[2] {
 					run.Report("C15|compile|simreport|relation-differs", fmt.Sprintf("%s: SimReport.Init compiled {%s}, the rules say {%s}", it.c,
 						strings.ReplaceAll(it.relR[0], "\n", "; "), strings.ReplaceAll(it.relR[1], "\n", "; ")), simReplay{"compile", it.c})
 				}
@@ -576,7 +601,7 @@ func runSemantics(run *vlib.Run, scratch string, binCh <-chan string, binErr *er
 					}
 					cl, ok := md.classes[it.fp]
 					if !ok {
-						cl = &simClass{mode: md.mode, members: map[string][]int{}, repSusp: -1}
+						cl = &simClass{mode: md.mode, members: map[string]member{}, repSusp: -1}
 						md.classes[it.fp] = cl
 					}
 					cl.cases++
@@ -589,7 +614,9 @@ func runSemantics(run *vlib.Run, scratch string, binCh <-chan string, binErr *er
 					if better {
 						cl.rep, cl.repSusp = c, it.nsusp
 					}
-					cl.members[listKey(it.active)] = it.active
+					if m, ok := cl.members[listKey(it.active)]; !ok || it.nsusp < m.nsusp {
+						cl.members[listKey(it.active)] = member{it.active, c, it.nsusp}
+					}
 				}
 			}
 		}
@@ -629,14 +656,14 @@ func runSemantics(run *vlib.Run, scratch string, binCh <-chan string, binErr *er
 		}
 		wg.Wait()
 		if ferr != nil {
-			run.Report("C15|harness|trace-worker", ferr.Error(), nil)
+			infra("trace worker: " + ferr.Error())
 			return res
 		}
 	}
 	// 3. the real CLI, one process per class
 	bin := <-binCh
 	if bin == "" {
-		run.Report("C15|harness|cli-build-failed", fmt.Sprint(*binErr), nil)
+		buildFailed(cleanupScratch, *binErr)
 		return res
 	}
 	type task struct {
@@ -658,8 +685,8 @@ func runSemantics(run *vlib.Run, scratch string, binCh <-chan string, binErr *er
 	minLen := func(cl *simClass) int {
 		m := 1 << 30
 		for _, a := range cl.members {
-			if len(a) < m {
-				m = len(a)
+			if len(a.active) < m {
+				m = len(a.active)
 			}
 		}
 		return m
@@ -737,7 +764,7 @@ func runSemantics(run *vlib.Run, scratch string, binCh <-chan string, binErr *er
 		}
 		res.runs++
 		if ob.err != nil {
-			run.Report("C15|harness|cli-run", fmt.Sprintf("%s: %v", t.cl.rep, ob.err), simReplay{"cli", t.cl.rep})
+			infra(fmt.Sprintf("cli run of %s: %v", t.cl.rep, ob.err))
 			continue
 		}
 		b, _ := json.Marshal(ob.got)
@@ -749,16 +776,11 @@ func runSemantics(run *vlib.Run, scratch string, binCh <-chan string, binErr *er
 		sort.Strings(keys)
 		mk := fmt.Sprint(t.md.mode)
 		for _, k := range keys {
-			active := t.cl.members[k]
-			c := simCase{Machine: t.md.mode.Machine, Ticks: simTicks, StopOn: t.md.mode.StopOn}
-			// the member equal to the executed case is judged with its suspended rules in place
+			active := t.cl.members[k].active
+			c := t.cl.members[k].c
+			// the member equal to the executed case is judged as executed
 			if listKey(active) == listKey(activeOf(t.cl.rep)) {
 				c = t.cl.rep
-			} else {
-				for _, a := range active {
-					c.Rules = append(c.Rules, alphabet[a])
-					c.Susp = append(c.Susp, false)
-				}
 			}
 			for _, s := range c.Rules {
 				r, _ := parseRule(s)
